@@ -40,6 +40,7 @@ ASSUMPTIONS = ['the reception pipeline after the unwrap prologue (packet decodin
 LP = 0x64
 # NDNLPv2: header fields in ascending Type order, Fragment last (what forwarders emit; independent of the library)
 ORDER = [0x52, 0x53, 0x62, 0x320, 0x32C, 0x330, 0x334, 0x340, 0x344, 0x348, 0x34C, 0x350, 0x50]
+LDESC = [None]    # reflected descriptor of LpPacketValue (value conversion only)
 T_FRAG, T_FIDX, T_FCNT, T_TOKEN, T_NACK, T_REASON = 0x50, 0x52, 0x53, 0x62, 0x320, 0x321
 
 
@@ -573,7 +574,7 @@ def run_nacks(ctx, ver, order, n, plan, origin):
         env.close()
 
 
-def run_tokens(ctx, order, tokens, perms, origin, hdr_extra=True, late=None):
+def run_tokens(ctx, order, tokens, perms, origin, hdr_extra=True, late=None, down=False):
     """appv2: one Interest per token (None = bare), closures kept; replies in every order of [perms]"""
     from ndn.encoding import make_interest, make_data, InterestParam, MetaInfo
     rng = ctx.rng
@@ -600,11 +601,14 @@ def run_tokens(ctx, order, tokens, perms, origin, hdr_extra=True, late=None):
         if got_tok != list(tokens):
             ctx.violation('NDNApp.v2', 'token-lost' if None in got_tok else 'token-altered',
                           f'tokens seen by the handlers {got_tok!r}', case0)
+        if down:
+            sc.face.running = False       # the face went down between the Interests and the replies
         for perm in perms:
             if late is not None and perm is perms[-1]:
                 env.loop.advance_to(env.loop.time() + late)
             hist = list(events)
             outs = []
+            before_all = len(sc.face.sent)
             for j in perm:
                 data = bytes(make_data(f'/h/t/{j}', MetaInfo(), bytes([j]) * rng.choice([0, 1, 30]), None))
                 before = len(sc.face.sent)
@@ -616,12 +620,19 @@ def run_tokens(ctx, order, tokens, perms, origin, hdr_extra=True, late=None):
                     out = exc_obs(e)
                 outs.append((j, data, out, now))
                 hist.append([1, j, now, data])
-            m = ctx.call([11, 1, hist])
+            m = ctx.call([11, 0 if down else 1, hist])
             case = {'tokens': tokens, 'order': list(perm), 'origin': origin}
             for (j, data, out, now), mo in zip(outs, m):
                 deadline = events[j][2]
                 spec = [] if now > deadline else [bytes(ctx.call([9, events[j][1], data]))]
-                mod = [bytes(x) for x in mo[1][1]] if not is_err(mo[1]) else ('raise', mo[1][1])
+                mod = [bytes(x) for x in mo[1][1]] if not is_err(mo[1]) else ('raise', 'NetworkError' if mo[1][1] == 101 else mo[1][1])
+                if down:
+                    # property: nothing may be put on a face that is down; the reply fails with NetworkError
+                    if sc.face.sent[before_all:]:
+                        ctx.violation('NDNApp.v2.reply', 'sent-on-closed-face', f'{sc.face.sent[before_all:]!r}', case)
+                    if mo[0] != j or mod != out:
+                        ctx.disagree('reply', 'face down: model and implementation differ', case, mo, out)
+                    continue
                 if mo[0] != j or mod != out:
                     ctx.disagree('reply', 'model and implementation send different bytes', case, mo, out)
                 tok = tokens[j]
@@ -664,6 +675,36 @@ def check_codecs(ctx, wire):
                 cls = 'header-out-of-order' if els is not None and not in_declared_order(els, ORDER) else 'nack-wrong-reason'
                 ctx.violation(nm, cls, f'spec reads Nack {s[1]}, function returned {impl!r}', case)
         ctx.case((op, wire), len(wire) > 6, None, f'E.{nm}')
+    # parse_lp_packet_v2 with and without the outer Type/Length
+    ldesc = LDESC[0]
+    inner = None
+    try:
+        _, a = TG.read_num(wire, 0)
+        _, b = TG.read_num(wire, a)
+        inner = wire[a + b:]
+    except Exception:   # noqa
+        pass
+    for with_tl, w in ((True, wire), (False, inner)):
+        if w is None:
+            continue
+        try:
+            impl = D.from_py(ldesc, LPM.parse_lp_packet_v2(w, with_tl))[1]
+        except Exception as e:   # noqa
+            impl = ('err', type(e).__name__, caught_decode(e))
+        m = ctx.call([13, 1 if with_tl else 0, w])
+        case = {'function': 'parse_lp_packet_v2', 'with_tl': with_tl, 'wire': w}
+        if is_err(m):
+            if not isinstance(impl, tuple):
+                ctx.disagree('parse_lp_packet_v2', 'model rejects, implementation accepts', case, m, impl)
+        else:
+            mv = [D.val_of_sexp(x) for x in m[1]]
+            if isinstance(impl, tuple):
+                ctx.disagree('parse_lp_packet_v2', 'implementation rejects, model accepts', case, mv, impl)
+            elif mv != impl:
+                ctx.disagree('parse_lp_packet_v2', 'different fields', case, mv, impl)
+        if isinstance(impl, tuple) and not impl[2]:
+            ctx.violation('parse_lp_packet_v2', 'undocumented-exception:' + impl[1], f'raises {impl[1]}', case)
+        ctx.case((13, with_tl, w), len(w) > 6, None, f'E.parse_lp_packet_v2.tl{int(with_tl)}')
 
 
 def check_make_nack(ctx, interest, r):
@@ -713,6 +754,7 @@ def run(ctx):
     from ndn.encoding import ndnlp_v2 as LPM
     rng = ctx.rng
     order = ORDER
+    LDESC[0] = D.reflect_class(LPM.LpPacketValue)
     pkts = packet_stream(ctx, ctx.n(40, 400))
     interests = [w for k, w in pkts if k == 'interest']
 
@@ -741,7 +783,10 @@ def run(ctx):
         all_subsets = [tuple(h for j, h in enumerate(OPTIONAL) if m >> j & 1) for m in range(1 << len(OPTIONAL))]
         for pi, (kind, pkt) in enumerate(pkts):
             both(typ_of(pkt), pkt, 'bare', True)
-            subsets = all_subsets if (ctx.thorough or pi < 2) else rng.sample(all_subsets, 12) + [(), ('pit_token',)]
+            if pi < ctx.n(2, 40):
+                subsets = all_subsets
+            else:
+                subsets = rng.sample(all_subsets, ctx.n(12, 64)) + [(), ('pit_token',)]
             for hs in subsets:
                 w, _ = envelope(rng, order, hs, pkt, unknown=rng.choice([0, 0, 1, 3]))
                 both(LP, w, 'wrapped', True)
@@ -841,6 +886,7 @@ def run(ctx):
         for rep in range(ctx.n(2, 6)):
             perms = allp if (ctx.thorough or k <= 3) else rng.sample(allp, 8)
             run_tokens(ctx, order, toks(k), perms, 'perm', late=(5.0 if rep == 0 else None))
+        run_tokens(ctx, order, toks(k), allp[:2], 'face-down', down=True)
 
 
 def replay(ctx, data):
@@ -849,6 +895,8 @@ def replay(ctx, data):
     logging.disable(logging.CRITICAL)
     from harness.lib.core import unjson
     case = unjson(data.get('case', {}))
+    from ndn.encoding import ndnlp_v2 as LPM
+    LDESC[0] = D.reflect_class(LPM.LpPacketValue)
     if isinstance(case, dict) and 'wire' in case and ('typ' in case or 'function' in case):
         env = Env()
         try:
